@@ -34,7 +34,10 @@
 // Path rule (HTTP): generic endpoint => base path joined with /v1/<signal>;
 // signal-specific endpoint => its path verbatim, "/" when empty; WithURLPath
 // and WithEndpointURL (with a path) override; WithEndpoint leaves the path to
-// the lower sources.
+// the lower sources. Paths are compared percent-decoded and are also drawn
+// with characters that URL escaping touches (paths_test.go); header values
+// are drawn with special characters and optional white space
+// (headers_spelling_test.go); environment timeouts also with leading zeros.
 //
 // Readings:
 //   - TLS is out of scope: WithInsecure is always passed, every URL is http://.
@@ -119,15 +122,17 @@ var srcNames = []string{"opt", "sig", "gen"}
 
 // Src is what one configuration source says about the setting of the cell.
 type Src struct {
-	State int    `json:"state"` // 0 absent, 1 valid, 2 invalid
-	Coll  int    `json:"coll"`  // collector index the source points at (endpoint / path cells)
-	Form  int    `json:"form"`  // option: 0 WithEndpoint, 1 WithEndpointURL with Path, 2 WithEndpointURL without path; env headers: extra pair first
-	Path  string `json:"path"`  // URL path of the endpoint URL / WithURLPath argument
-	Hdr   string `json:"hdr"`   // value of the common header key (environment: percent-encoded text)
-	Extra string `json:"extra"` // additional header key only this source sets
+	State int    `json:"state"`         // 0 absent, 1 valid, 2 invalid
+	Coll  int    `json:"coll"`          // collector index the source points at (endpoint / path cells)
+	Form  int    `json:"form"`          // option: 0 WithEndpoint, 1 WithEndpointURL with Path, 2 WithEndpointURL without path; env headers: extra pair first
+	Path  string `json:"path"`          // URL path of the endpoint URL / WithURLPath argument
+	Hdr   string `json:"hdr"`           // value of the common header key (environment: percent-encoded text)
+	Extra string `json:"extra"`         // additional header key only this source sets
+	OWS   int    `json:"ows,omitempty"` // environment header list: optional white space around "=" and "," (0 none)
 	Gzip  bool   `json:"gzip"`
-	Ms    int64  `json:"ms"` // timeout, milliseconds
-	Ns    int64  `json:"ns"` // option only: when not 0 the timeout is this many nanoseconds (not a multiple of a millisecond)
+	Ms    int64  `json:"ms"`            // timeout, milliseconds
+	Ns    int64  `json:"ns"`            // option only: when not 0 the timeout is this many nanoseconds (not a multiple of a millisecond)
+	Pad   int    `json:"pad,omitempty"` // environment timeout: number of leading zeros of the decimal text ("05000" is 5000)
 	// invalid state: index into the table of invalid values of the setting
 	// and source class, and the kind (redundant, for the reader).
 	Bad     int    `json:"bad"`
@@ -385,6 +390,14 @@ func genOTLP(t *rapid.T) Case {
 		switch c.Setting {
 		case "endpoint", "path":
 			seg := "/" + tag + strconv.Itoa(n)
+			// spelling dimension of the path: characters that URL escaping
+			// touches (see richTail). Drawn for every source, used by the
+			// HTTP exporters only (the gRPC exporters have no URL path).
+			decodedForm := i == 0 && c.Setting == "path" // WithURLPath takes a path, not a URL
+			tail := richTail(t, decodedForm)
+			if !grpc && uniform(t, 2, "rich_path") == 0 {
+				seg += tail
+			}
 			var paths []string
 			switch {
 			case c.Setting == "endpoint" && grpc:
@@ -408,6 +421,12 @@ func genOTLP(t *rapid.T) Case {
 			if i > 0 && rapid.IntRange(0, 3).Draw(t, "enc") == 0 {
 				s.Hdr += "%2C%3Dz"
 			}
+			// spelling dimension of the value (headers_spelling_test.go)
+			htail := richHdrTail(t, i > 0)
+			if uniform(t, 2, "rich_hdr") == 0 {
+				s.Hdr += htail
+			}
+			s.OWS = rapid.IntRange(0, 3).Draw(t, "ows")
 			if rapid.Bool().Draw(t, "extra") {
 				s.Extra = "x-extra-" + tag
 			}
@@ -417,6 +436,7 @@ func genOTLP(t *rapid.T) Case {
 			s.Gzip = winnerFlag == !seenValid
 		case "timeout":
 			ns := rapid.SampledFrom(optionNanos).Draw(t, "option_ns")
+			s.Pad = rapid.SampledFrom([]int{0, 0, 0, 1, 2, 5}).Draw(t, "leading_zeros")
 			subMs := uniform(t, 6, "option_sub_ms")
 			if grpc {
 				s.Ms = grpcT[i]
@@ -494,8 +514,15 @@ func walk(c Case) verdict {
 	return v
 }
 
+// decodeHdr is the header value an environment header list spells with s
+// (headers_spelling_test.go): percent-decoded, optional white space around it
+// dropped.
 func decodeHdr(s string) string {
-	return strings.NewReplacer("%2C", ",", "%3D", "=").Replace(s)
+	d, err := url.PathUnescape(s)
+	if err != nil {
+		panic(fmt.Sprintf("harness bug: generated header value %q is not a valid percent-encoding: %v", s, err))
+	}
+	return strings.Trim(d, " \t")
 }
 
 // joinGeneric is the path a generic endpoint with base path b stands for.
@@ -543,9 +570,9 @@ type expectation struct {
 func envPathOf(c Case, i int) string {
 	s := c.srcs()[i]
 	if i == 1 {
-		return verbatim(s.Path)
+		return verbatim(urlPathDecoded(s.Path))
 	}
-	return joinGeneric(s.Path, c.Exporter)
+	return joinGeneric(urlPathDecoded(s.Path), c.Exporter)
 }
 
 // lowerSrc: the environment source that decides the URL path when the
@@ -615,7 +642,7 @@ func expect(c Case) expectation {
 				case w == 0 && srcs[0].Form == 0:
 					e.path = lowerPath(c)
 				case w == 0 && srcs[0].Form == 1:
-					e.path = srcs[0].Path
+					e.path = urlPathDecoded(srcs[0].Path)
 				case w == 0:
 					// WithEndpointURL without a path: not asserted
 				default:
@@ -847,13 +874,17 @@ func apply(c Case, env *envSetter) optSet {
 			}
 		case "headers":
 			if i > 0 {
-				v := hdrKey + "=" + s.Hdr
+				eq, comma := owsOf(s.OWS)
+				v := hdrKey + eq + s.Hdr
 				if s.Extra != "" {
 					if s.Form == 1 {
-						v = s.Extra + "=1," + v
+						v = s.Extra + eq + "1" + comma + v
 					} else {
-						v = v + "," + s.Extra + "=1"
+						v = v + comma + s.Extra + eq + "1"
 					}
+				}
+				if s.OWS == 3 {
+					v = " " + v + " "
 				}
 				if s.State == invalid {
 					v = subst(b.text, s, a)
@@ -901,7 +932,7 @@ func apply(c Case, env *envSetter) optSet {
 			}
 		case "timeout":
 			if i > 0 {
-				v := strconv.FormatInt(s.Ms, 10)
+				v := strings.Repeat("0", s.Pad) + strconv.FormatInt(s.Ms, 10)
 				if s.State == invalid {
 					v = b.text
 				}
@@ -974,6 +1005,9 @@ func runOTLP(c Case) (vs []vk.Violation, info vk.Info) {
 		}
 	}
 
+	if c.Setting == "headers" && e.v.winner >= 0 && e.v.winner < 3 {
+		noteHdrSpelling(c, e.v.winner, &info)
+	}
 	if c.UserConn {
 		kind := map[bool]string{true: "WithGRPCConn", false: "WithProxy(direct)"}[grpc]
 		info.Class("user_transport/" + kind + "/" + c.Exporter)
@@ -1018,6 +1052,10 @@ func runOTLP(c Case) (vs []vk.Violation, info vk.Info) {
 	}
 	colls.grpcDelay.Store(int64(gdelay))
 	defer colls.grpcDelay.Store(0)
+	if c.Setting == "timeout" && (e.v.winner == 1 || e.v.winner == 2) && srcs[e.v.winner].Pad > 0 {
+		info.Class("timeout/env_leading_zeros")
+		info.Class("timeout/env_leading_zeros/" + c.Exporter)
+	}
 	if c.Setting == "timeout" && e.v.winner == 0 && c.Opt.Ns != 0 {
 		info.Class("timeout/option_not_whole_ms/" + time.Duration(c.Opt.Ns).String())
 		info.Class("timeout/option_not_whole_ms/" + c.Exporter)
@@ -1067,8 +1105,17 @@ func runOTLP(c Case) (vs []vk.Violation, info vk.Info) {
 			bad("wrong_service", r.Signal, "%s sent to the %s service", c.Exporter, r.Signal)
 		}
 		// ---- path ----
-		if e.path != "" && !grpc && r.Path != e.path {
-			bad("path_mismatch", r.Path, "%s %s: request path %q, expected %q (winner %s)", c.Exporter, c.Setting, r.Path, e.path, winnerName(e.v.winner))
+		// r.Path is the escaped path of the request line; the request must have
+		// gone to the path the deciding source names (paths_test.go).
+		wirePath, uerr := url.PathUnescape(r.Path)
+		if uerr != nil {
+			wirePath = r.Path
+		}
+		if e.path != "" && !grpc && wirePath != e.path {
+			bad("path_mismatch", wirePath, "%s %s: request sent to %q (request line %q), expected the path %q (request line %q) named by the %s", c.Exporter, c.Setting, wirePath, r.Path, e.path, (&url.URL{Path: e.path}).EscapedPath(), winnerName(pathDeciderOr(c, e.v.winner)))
+		}
+		if e.path != "" && !grpc {
+			notePathSpelling(c, r, wirePath == e.path, &info)
 		}
 		// ---- header ----
 		if e.hdrAssert {
@@ -1142,6 +1189,69 @@ func runOTLP(c Case) (vs []vk.Violation, info vk.Info) {
 	return vs, info
 }
 
+// pathDeciderOr: the source the expected path comes from (the winner of the
+// cell, or a lower source when the winning option names no path).
+func pathDeciderOr(c Case, w int) int {
+	if d := pathDecider(c); d >= 0 {
+		return d
+	}
+	return w
+}
+
+// notePathSpelling records which spellings of the path the case reached and,
+// as an observation only, what happened to the escaping of reserved
+// characters on the way (paths_test.go).
+func notePathSpelling(c Case, r request, arrived bool, info *vk.Info) {
+	d := pathDecider(c)
+	if d < 0 || d > 2 {
+		return
+	}
+	s := c.srcs()[d]
+	decodedForm := d == 0 && c.Setting == "path"
+	if !isRichPath(s.Path, decodedForm) {
+		info.Class("path_spelling/plain")
+		return
+	}
+	via := srcNames[d]
+	if d == 0 {
+		via = map[bool]string{true: "WithURLPath", false: "WithEndpointURL"}[decodedForm]
+	}
+	info.Class("path_spelling/rich/" + via)
+	info.Class("path_spelling/rich/" + c.Exporter + "/" + via)
+	if decodedForm {
+		return
+	}
+	info.ClassIf(strings.Contains(s.Path, "%25"), "path_spelling/escaped_percent/"+via)
+	info.ClassIf(strings.ContainsAny(s.Path, " \\\"<>^`{|}") || !isASCII(s.Path), "path_spelling/raw_char_needing_escape/"+via)
+	info.ClassIf(strings.Contains(strings.ToUpper(s.Path), "%C3") || strings.Contains(strings.ToUpper(s.Path), "%E6") || strings.Contains(strings.ToUpper(s.Path), "%F0"), "path_spelling/escaped_non_ascii/"+via)
+	if !arrived || d != 1 {
+		return
+	}
+	// signal-specific endpoint, same decoded path: escaping kept?
+	u, err := url.Parse("http://127.0.0.1:1" + s.Path)
+	if err != nil {
+		return
+	}
+	want := u.EscapedPath()
+	switch lit := reservedLiteralised(want, r.Path); {
+	case strings.EqualFold(want, r.Path):
+		info.Class("obs/path/signal_endpoint_escaping/kept/" + c.Exporter)
+	case lit != "":
+		info.Class("obs/path/signal_endpoint_escaping/escaped_reserved_char_sent_raw/" + c.Exporter)
+	default:
+		info.Class("obs/path/signal_endpoint_escaping/normalised/" + c.Exporter)
+	}
+}
+
+func isASCII(s string) bool {
+	for i := 0; i < len(s); i++ {
+		if s[i] >= 0x80 {
+			return false
+		}
+	}
+	return true
+}
+
 func winnerName(w int) string {
 	switch w {
 	case 0:
@@ -1184,7 +1294,11 @@ func observe(c Case, e expectation, reqs []request, buildErr, exportErr error) s
 		}
 		return "delivered_elsewhere"
 	case "path":
-		return "path=" + classifyPath(c, r.Path)
+		wp, err := url.PathUnescape(r.Path)
+		if err != nil {
+			wp = r.Path
+		}
+		return "path=" + classifyPath(c, wp)
 	case "headers":
 		got := r.Header["X-Verif-Src"]
 		var want []string
@@ -1262,8 +1376,8 @@ func knownOTLP() map[string]func(Case, vk.Violation) bool {
 			if v.Kind != "path_mismatch" || (c.Exporter != "otlptracehttp" && c.Exporter != "otlpmetrichttp") {
 				return false
 			}
-			obs, _ := v.Observed.(string)
-			return pathDecider(c) == 1 && len(c.Sig.Path) > 1 && strings.HasSuffix(c.Sig.Path, "/") && obs == path.Clean(c.Sig.Path)
+			obs, _ := v.Observed.(string) // decoded request path
+			return pathDecider(c) == 1 && len(c.Sig.Path) > 1 && strings.HasSuffix(c.Sig.Path, "/") && obs == path.Clean(urlPathDecoded(c.Sig.Path))
 		},
 	}
 }
